@@ -218,44 +218,43 @@ func (t *tables) hashQuery(x []byte) {
 	t.kec[k] = hx.CoqPair(hx.CoqBytes(x), hx.CoqBytes(keccak(x)))
 }
 
-// collect supplies a superset of what the model can ask for one operation: password x
-// every blob in sight (file before, file after, import argument, export result).
+// collect supplies a superset of what the model can ask for one operation: the password
+// against every blob in sight (file before, file after, import argument, export result):
+// opening that blob, and sealing every plaintext in sight with that blob's salt and iv.
 func (t *tables) collect(pw []byte, blobs []*pfile, plains [][]byte) {
-	var dks [][]byte
-	for _, b := range blobs {
-		if b == nil || b.notJSON || !b.salt.ok {
-			continue
-		}
-		if dk, ok := t.kdfQuery(pw, b.salt.b, b.n, b.r, b.p, b.dkl); ok && len(dk) >= 32 {
-			dks = append(dks, dk)
-		}
+	type bk struct {
+		b  *pfile
+		dk []byte
 	}
+	var open []bk
 	datas := map[string][]byte{}
 	for _, p := range plains {
 		datas[string(p)] = p
 	}
-	for _, dk := range dks {
-		for _, b := range blobs {
-			if b == nil || b.notJSON || !b.ct.ok {
-				continue
-			}
+	for _, b := range blobs {
+		if b == nil || b.notJSON || !b.salt.ok {
+			continue
+		}
+		dk, ok := t.kdfQuery(pw, b.salt.b, b.n, b.r, b.p, b.dkl)
+		if !ok || len(dk) < 32 {
+			continue
+		}
+		open = append(open, bk{b, dk})
+		if b.ct.ok {
 			t.hashQuery(append(append([]byte{}, dk[16:32]...), b.ct.b...))
-			datas[string(b.ct.b)] = b.ct.b
 			if b.iv.ok && len(b.iv.b) == 16 {
 				pt := t.ctrQuery(dk[:16], b.iv.b, b.ct.b)
 				datas[string(pt)] = pt
 			}
 		}
 	}
-	for _, dk := range dks {
-		for _, b := range blobs {
-			if b == nil || b.notJSON || !b.iv.ok || len(b.iv.b) != 16 {
-				continue
-			}
-			for _, d := range datas {
-				ct := t.ctrQuery(dk[:16], b.iv.b, d)
-				t.hashQuery(append(append([]byte{}, dk[16:32]...), ct...))
-			}
+	for _, o := range open {
+		if !o.b.iv.ok || len(o.b.iv.b) != 16 {
+			continue
+		}
+		for _, d := range datas {
+			ct := t.ctrQuery(o.dk[:16], o.b.iv.b, d)
+			t.hashQuery(append(append([]byte{}, o.dk[16:32]...), ct...))
 		}
 	}
 }
@@ -1027,7 +1026,7 @@ func main() {
 			runFile(run, &jc, nil)
 		}
 	}
-	nh := run.N(8, 60)
+	nh := run.N(6, 60)
 	for h := 0; h < nh; h++ {
 		rr := r.Fork(uint64(h))
 		n := 6 + rr.Intn(run.N(9, 25))
